@@ -1207,6 +1207,8 @@ POST["log_once"] = post_log_once
 
 PROPS["C11"] = {
     "gen": gen_C11,
+    "model_is_spec": False,
+    "value_kinds_spec": [6],
     "rule": "every wiring of 1-3 user-defined operation nodes (closures mul / affine / square supplied through "
             "Array::op, kinds rotating) over two leaves, 4-node wirings (all 14400 thorough, 1500 sampled quick; the "
             "pass starts on the last or on a random node), 20000 sampled 5-node wirings (thorough), chains of "
@@ -1310,6 +1312,7 @@ POST["linearity"] = post_linearity
 
 PROPS["C17"] = {
     "gen": gen_C17,
+    "model_is_spec": False,
     "rule": "seeded random programs (1-9 operations, every operation, broadcasting; three quarters integer-valued "
             "and exact, one quarter floats with rtol 1e-7), each run five times in fresh instances with seeds s1, s2, "
             "alpha*s1+beta*s2 (small integer coefficients), no seed, and ones; leaf gradients compared with the model "
@@ -1465,6 +1468,7 @@ def gen_C09(tier, rng):
 
 PROPS["C09"] = {
     "gen": gen_C09,
+    "model_is_spec": False,
     "rule": "seeded random histories: 2-10 steps mixing operations (all kinds, broadcasting) with clone, tracked(), "
             "untracked(), start_tracking(), stop_tracking() on arbitrary live handles (leaves, intermediates, clones), "
             "then 1-3 passes from random nodes, each followed by the gradient of every live handle and further flag "
@@ -1604,6 +1608,7 @@ POST["additivity"] = post_additivity
 
 PROPS["C10"] = {
     "gen": gen_C10,
+    "model_is_spec": False,
     "rule": "seeded random histories over a pool of 2-4 leaves: 3-12 steps of graph construction, backward(seed or none) "
             "on any live operation node (the same result again, interior nodes, enclosing results), gradient clearing by "
             "replace_gradient and by gradient_mut, handle drops; gradients of every leaf and operation handle after each "
@@ -1683,6 +1688,7 @@ POST["released"] = post_released
 
 PROPS["C18"] = {
     "gen": gen_C18,
+    "model_is_spec": False,
     "rule": "seeded random graphs over 1-3 leaves (1-9 operations of every kind, clones), then no pass / one pass / two "
             "passes / a pass followed by fetching gradients; every handle other than the original leaf handles is "
             "dropped in random order and Vec::<Float>::from is called on every leaf (must succeed, with and without "
@@ -1807,6 +1813,7 @@ POST["variants_equal"] = post_variants_equal
 
 PROPS["C12"] = {
     "gen": gen_C12,
+    "model_is_spec": False,
     "rule": "seeded random programs (2-10 operations, every operation; two thirds integer-valued) each with three "
             "variants: operands replaced by fresh clones (p=0.4 per operand), intermediate handles dropped right after "
             "their last use (p=0.6), the pass started from a clone of the result (p=0.5), gradients read through a clone "
@@ -2236,6 +2243,7 @@ POST["immutable"] = post_immutable
 
 PROPS["C08"] = {
     "gen": gen_C08,
+    "model_is_spec": False,
     "rule": "seeded random histories over 1-3 leaves: 3-10 steps of operations (all kinds, including reshape views), "
             "clones, backward passes, fetched gradients, gradient clears, optimizer updates of some leaves (with clones "
             "of the old parameter kept alive) and drops; after every step a snapshot of the dimensions and values of "
